@@ -272,7 +272,10 @@ class Parser:
             hints_file_compiled = hints_file.with_suffix(".pgec")
             if (
                 not hints_file_compiled.exists()
-                or grammar_file.stat().st_mtime > hints_file_compiled.stat().st_mtime
+                or any(
+                    Path(g_file).stat().st_mtime > hints_file_compiled.stat().st_mtime
+                    for g_file in self.grammar.imported_files
+                )
                 or hints_file.stat().st_mtime > hints_file_compiled.stat().st_mtime
             ):
                 # Compilation is needed
